@@ -11,7 +11,9 @@ CONSTANTS NP, Lens, PLen, PMin, SLen, TLen, Kinds, Rfs, Isos, Skips, Bads
 Pow2(n) == 2 ^ n
 \* bytes of an identity: zero everywhere except a 1 at offset flip (0 = no flip)
 Byte(flip, i) == IF i = flip THEN 1 ELSE 0
-Enc(flip, from, to) == LET S == {i \in from..to : Byte(flip, i) = 1} IN IF S = {} THEN 0 ELSE Pow2((CHOOSE i \in S : TRUE) - from)
+\* atom of the byte string at offsets from..to: its length and its bytes read as a binary number
+Enc(flip, from, to) == LET S == {i \in from..to : Byte(flip, i) = 1} IN
+                       1024 * (to - from + 1) + (IF S = {} THEN 0 ELSE Pow2((CHOOSE i \in S : TRUE) - from))
 PK(len, flip) == IF len <= PLen THEN Enc(flip, 1, len) ELSE Enc(flip, 1, Min2(PMin, len))
 SK(len, flip) == Enc(flip, len - Min2(SLen, len) + 1, len)
 CK(len, flip) == Enc(flip, 1, len)
@@ -45,11 +47,11 @@ Picked == stage \notin {"pick1", "pick2"}
 MCTypeOK == Picked => TypeOK
 MCSound == Picked => Sound
 MCSoundSkip == Picked => SoundSkip
+MCSoundSkipIdeal == Picked => SoundSkipIdeal
 MCComplete == Picked => Complete
+MCCompleteSkip == Picked => CompleteSkip
 MCNeverSplit == Picked => NeverSplit
 MCBadAlone == Picked => BadAlone
 MCOthersUnaffected == Picked => OthersUnaffected
 MCFilterHonoured == Picked => FilterHonoured
-\* the same, restricted to the configurations where the code applies the strict filter at the end
-MCFilterHonouredNoSkip == Picked /\ ~inp.cfg.skipContent => FilterHonoured
 =============================================================================
